@@ -241,6 +241,10 @@ def next_ops(model, plan, depth):
             for w in plan.get("plus_menu", plan["menu"]):
                 if len(MENU[w]) <= room:
                     ops.append((o, w))
+    if "ctor" in plan["ops"] and n and room >= 1:
+        # WorkflowBuilder(<the current workflow>, tasks=[new task]): same state as add_task(new) on a copy
+        for kind in plan["kinds"]:
+            ops.append(("ctor", kind))
     if "ctx" in plan["ops"] and n:
         ops.append(("ctx",))
     return ops
@@ -266,6 +270,8 @@ def fmt_op(op):
     if k == "ins":
         p = {"none": "", "one": ", t%d" % op[3][0] if op[3] else "", "list": ", [%s]" % ",".join("t%d" % x for x in op[3])}[op[2]]
         return "insert_workflow(%s%s)" % (op[1], p)
+    if k == "ctor":
+        return "WorkflowBuilder(Workflow(wb), tasks=[%s])" % op[1]
     if k == "plus":
         return "wb + %s" % op[1]
     if k == "wplus":
@@ -369,6 +375,8 @@ class Impl:
             self.wb.replace_task(cur[op[1]], self.env.make_task(labels[0], op[2]))
         elif k == "ins":
             self.wb.insert_workflow(self.menu_workflow(labels, op[1]), pr(op[2], op[3]))
+        elif k == "ctor":
+            self.wb = WorkflowBuilder(Workflow(self.wb), tasks=[self.env.make_task(labels[0], op[1])])
         elif k == "plus":
             self.wb = self.wb + self.menu_workflow(labels, op[1])
         elif k == "wplus":
@@ -398,7 +406,7 @@ class Impl:
 
 def n_new_labels(op):
     k = op[0]
-    if k in ("add", "rep"):
+    if k in ("add", "rep", "ctor"):
         return 1
     if k in ("ins", "plus", "wplus"):
         return len(MENU[op[1]])
@@ -409,6 +417,8 @@ def model_apply(m, op, labels):
     k = op[0]
     if k == "add":
         m.add(labels[0], op[1], op[3])
+    elif k == "ctor":
+        m.add(labels[0], op[1], ())
     elif k == "rep":
         m.rep(op[1], labels[0], op[2])
     elif k == "ins":
